@@ -59,6 +59,12 @@ fn weights(g: &mut Sm64, len: usize) -> Vec<f64> {
             w[i] = 1.0;
         }
     }
+    // sometimes *almost* normalised: total within 1e-14..1e-2 of one (but not one)
+    if g.chance(0.2) {
+        let tot: f64 = w.iter().sum();
+        let delta = g.log_uniform(1e-14, 1e-2) * if g.bool() { 1.0 } else { -1.0 };
+        return w.iter().map(|x| x / tot * (1.0 + delta)).collect();
+    }
     w.iter().map(|x| x * mag).collect()
 }
 
@@ -89,6 +95,9 @@ where
     // normalisation
     let sum: f64 = probs.iter().sum();
     let wsum: f64 = w.iter().map(|x| x.to_f64().unwrap()).sum();
+    if wsum != 1.0 && (wsum - 1.0).abs() < 1e-2 {
+        rep.count("weight_vectors_almost_but_not_normalised");
+    }
     if probs.len() != len || probs.iter().any(|p| !(*p >= 0.0)) || (sum - 1.0).abs() > (len as f64 + 2.0) * F::eps() {
         rep.violation(&format!("{sig} probs-not-normalised"), mon, case, json!({"cfg": wj(), "sum": fj(sum), "probs": fjv(&probs)}));
         return;
